@@ -119,6 +119,9 @@ def family(tier):
     add("release_state", "abc", "(deflayer l0 (multi lsft (layer-while-held l1)) (multi x (release-key lsft)) z)\n"
                                 "(deflayer l1 _ (multi y (release-layer l1)) lctl)", qmax=3, quick=False)
     add("repeat", "ab", "(deflayer l0 S-x rpt)", qmax=3, quick=False)
+    # caps-word in L1 (Kanata.tla CwStep): a key to capitalise, a non-terminal key, a terminating key; timeout 3
+    add("capsword", "abcd", "(deflayer l0 (caps-word-custom 3 (b) (c)) b c d)", qmax=2)
+    add("capsword_toggle", "abc", "(deflayer l0 (caps-word-custom-toggle 4 (b) ()) b (multi lctl c))", qmax=2, quick=False)
     # ---- pairwise combinations
     add("layer_x_taphold", "abc", "(deflayer l0 (tap-hold 0 3 x (layer-while-held l1)) y (layer-while-held l1))\n"
                                   "(deflayer l1 _ (tap-hold-press 0 2 z lsft) _)", qmax=2)
